@@ -1,10 +1,12 @@
 """C14 - storage engines behave like a map under any flushes, compactions and overlap.
 
 Part A: Memtable against its map view.            Part B: KVStore (no capacity limit) against its map view.
-Part C: SSTable (sorted run + sparse index + Bloom filter) against its map view.
-Part D: LSM tree: compaction strategies, put/delete/get_sync/flush/compact against the layered view.
-Part E: transactions (conflict check = functional spec of backward validation, atomic commit).
-Part F: bounded native stand-ins (generator API of the LSM tree and the B-tree inside a real Simulation).
+Part D: LSM tree over the ghost map view of its SSTables (SSTable internals are used through assumed contracts):
+        get_sync against the layered view, put_sync, both flushes (data moves to the newest L0 run; the memtable
+        being flushed stays readable at every yield).
+Part E: transactions (conflict check = functional spec of backward validation, atomic commit, snapshot reads).
+Part F: bounded native stand-ins (compaction through the sync API against a dict; generator API of the LSM tree and
+        of the B-tree inside a real Simulation against an interval oracle).
 See DESIGN.md section 3-C14.
 """
 from pyvc.spec import *
@@ -158,6 +160,21 @@ def in_rng(j, n):
     return (0 <= j) & mk_bool(j.t < n)
 
 
+def _newest(j, cnt, n):
+    """index j is among the `cnt` newest (= last) positions of a list of length n (raw term)"""
+    _note(num(cnt), n - 1 - num(cnt))
+    return mk_bool(z3.And(j.t >= n - num(cnt), j.t < n, j.t >= 0))
+
+
+def _note(*terms):
+    """proof hint: register index terms so that the quantified facts are instantiated on them (stage 1)"""
+    c = _ctx.cur()
+    for t in terms:
+        t = z3.simplify(t)
+        if not z3.is_int_value(t) and not z3.is_var(t):
+            c.note_term(t)
+
+
 def level_misses(levels, l, k):
     """no run of level l (raw Int term) holds key k"""
     lv = levels[l]
@@ -169,13 +186,56 @@ _GS_MODS = [("Memtable", "_total_reads"), ("Memtable", "_total_hits"), ("Memtabl
             ("LSMTree", "_total_read_hits"), ("LSMTree", "_total_sstables_checked"), ("LSMTree", "_total_bloom_saves")]
 loop(F_LSM, "LSMTree.get_sync", 1, modifies=_GS_MODS, types={"value": Opt(VAL)}, inv=[
     ("no-newer-immutable-memtable-holds-the-key", lambda L: forall(Int, lambda j: implies(
-        (0 <= j) & (j < L.i), Not(imm_has(seq_term(L.seq), j.t, L.key))), "j"))])
+        _newest(j, L.i, z3.Length(seq_term(L.self._immutable_memtables))),
+        Not(imm_has(seq_term(L.self._immutable_memtables), j.t, L.key))), "j"))])
 loop(F_LSM, "LSMTree.get_sync", 2, modifies=_GS_MODS, types={"result": Opt(VAL)}, inv=[
     ("no-upper-level-holds-the-key", lambda L: forall(Int, lambda l: implies(
         (0 <= l) & (l < L.i), level_misses(seq_term(L.seq), l.t, L.key)), "l"))])
 loop(F_LSM, "LSMTree.get_sync", 3, modifies=_GS_MODS, types={"result": Opt(VAL)}, inv=[
     ("no-newer-run-of-this-level-holds-the-key", lambda L: forall(Int, lambda j: implies(
-        (0 <= j) & (j < L.i), Not(sst_has(seq_term(L.seq)[j.t], L.key))), "j"))])
+        _newest(j, L.i, z3.Length(seq_term(L.level))), Not(sst_has(seq_term(L.level)[j.t], L.key))), "j"))])
+
+# ghost: at each of the three hit sites of get_sync record WHERE the hit happened (proof hint: the witnesses of
+# the existentials in `lookup_is`; the clause itself does not change)
+ghost(F_LSM, "LSMTree.get_sync", "self._total_read_hits += 1", "_c14_hit(locals())", where="after*")
+
+
+# ghost assertions at the point where a flush has installed the new L0 run (before any compaction runs)
+ghost(F_LSM, "LSMTree._flush_memtable_sync", "self._total_memtable_flushes += 1", "_c14_flush_installed(self, sstable)",
+      where="after")
+ghost(F_LSM, "LSMTree._flush_memtable", "self._immutable_memtables.remove(old_memtable)",
+      "_c14_flush_installed(self, sstable)", where="after")
+
+
+def _c14_flush_installed(self, sstable):
+    """the flushed entries are now served by the NEWEST run of level 0, every older run and level is where it was
+    at the start of this atomic segment, and the memtable the flush started from has been retired"""
+    c = _ctx.cur()
+    from pyvc.heap import old_view
+    m0 = old_view(self, c.pre_state)._memtable                   # the memtable at function entry
+    entry_data = old_view(m0, c.pre_state)._data
+    seg = c.ghost_args.get("c14_seg") or c.pre_state              # start of the current atomic segment
+    lv1, lv0 = seq_term(self._levels), seq_term(old_view(self, seg)._levels)
+    oblige("flush/new-run-is-the-newest-of-level-0", mk_bool(z3.And(
+        z3.Length(lv1[0]) == z3.Length(lv0[0]) + 1, lv1[0][z3.Length(lv0[0])] == sstable._ref)), kind="post")
+    oblige("flush/older-runs-and-levels-keep-their-place", mk_bool(z3.And(
+        z3.Length(lv1) == z3.Length(lv0), z3.Extract(lv1[0], 0, z3.Length(lv0[0])) == lv0[0],
+        z3.Extract(lv1, 1, z3.Length(lv1) - 1) == z3.Extract(lv0, 1, z3.Length(lv0) - 1))), kind="post")
+    oblige("flush/new-run-holds-exactly-the-flushed-entries", same_map(sstable.g_view, entry_data), kind="post")
+    oblige("flush/flushed-memtable-is-retired", Not(same(self._memtable, m0)) | (slen(self._memtable._data) == 0),
+           kind="post")
+
+
+def _c14_hit(locs):
+    lps = {v.key[2]: v for n, v in locs.items() if n.startswith("_pyvc_lp")}
+    if "sstable" in locs and 3 in lps:
+        w = ("sst", lps[2].i, lps[3].i)
+    elif "imm" in locs and 1 in lps:
+        w = ("imm", lps[1].i)
+    else:
+        w = ("mt",)
+    _ctx.cur().ghost_args["c14_hit"] = w
+
 
 from specs.common import *  # noqa: E402,F401
 
@@ -185,7 +245,10 @@ from happysimulator.components.datastore.kv_store import KVStore  # noqa: E402
 PROPERTY = {
     "id": "C14",
     "level": "proof",
-    "trusted": ["heap typing of the fields declared in specs/C14.py and specs/common.py"],
+    "trusted": ["heap typing of the fields declared in specs/C14.py and specs/common.py",
+                "spec-local shims of builtins used by the anchored modules: reversed(list) = the same elements in "
+                "opposite order, frozenset(set / dict keys) = an immutable copy, `x is _TOMBSTONE` = equality with the "
+                "module's private sentinel object"],
     "assumptions": COMMON_ASSUMPTIONS + [
         "stored values are never None: `put(k, None)` is indistinguishable from an absent key in every engine "
         "(`if value is not None`), which the property statement does not cover",
@@ -193,6 +256,25 @@ PROPERTY = {
         "KVStore.delete/delete_sync: a stored key is listed in _insertion_order (eviction bookkeeping; established by "
         "put for the written key - clause new-key-tracked - its preservation by list.remove of another key is not "
         "decided by z3's sequence solver)",
+        "user values are never the LSM tree's private tombstone sentinel (precondition of LSMTree.put_sync)",
+        "transactions: the store behind a TransactionManager meets the map contract proved for KVStore in part B "
+        "(stubs StorageEngine.put_sync / get over the ghost map g_map; get waits one latency, then reads atomically) and is "
+        "written only through committed transactions; the OCC serial-order argument is by induction over the commits "
+        "between snapshot and commit (lemma occ-backward-validation-step is the induction step)",
+        "LSM tree, parts below the tree are used through assumed contracts over the ghost map view SSTable.g_view: "
+        "SSTable.contains has no false negatives (Bloom filter, property C20), SSTable.get returns the view, "
+        "Memtable.flush returns a NEW SSTable whose view equals the memtable's entries and empties the memtable, "
+        "Memtable.__init__ gives an empty memtable with the requested threshold; SSTable internals (sorted run, sparse "
+        "index, bisect) are not under contract in this check",
+        "LSM tree: CompactionStrategy.should_compact is an arbitrary pure predicate; WriteAheadLog.append/append_sync/"
+        "truncate only touch the WAL (property C15); the compaction stubs _compact/_compact_sync used by the flush "
+        "contracts only promise to keep the number of levels (the merge itself is covered by the bounded stand-ins only)",
+        "LSMTree._flush_memtable rely: an immutable memtable is written by nobody (puts go to the active memtable, "
+        "which the flush has replaced before its first yield) and leaves _immutable_memtables only through the flush "
+        "that put it there",
+        "mixed use of the sync API while a generator flush is suspended (put_sync + _flush_memtable_sync with a "
+        "non-empty _immutable_memtables list) is outside the statement (operations overlapping in simulated time are "
+        "the generator API)",
     ],
 }
 
@@ -617,6 +699,7 @@ def _reversed(x):
 
 
 _lsm_mod._pyvc_is, _lsm_mod._pyvc_is_not, _lsm_mod.reversed = _is, _is_not, _reversed
+_lsm_mod._c14_hit = _c14_hit
 
 
 class _NewSST:
@@ -690,17 +773,343 @@ def lookup_is(t, k, result):
                 & forall(Int, lambda i2: implies(in_rng(i2, z3.Length(run)) & (i2 > i), Not(sst_has(run[i2.t], k))), "i2")
                 & forall(Int, lambda l2: implies((0 <= l2) & (l2 < l), level_misses(lv, l2.t, k)), "l2")
                 & decode_is(result, raw_val(WMAP, sst_view(run[i.t]), k)))
-    found = ((a & decode_is(result, mval(mt, k)))
-             | (Not(a) & exists(Int, first_imm, "j"))
-             | (Not(a) & mk_bool(no_imm.t) & exists(Int, lambda l: exists(Int, lambda i: first_sst(l, i), "i"), "l")))
-    if result is None:
-        return found | (Not(a) & mk_bool(no_imm.t) & mk_bool(no_sst.t))
-    return found
+    # The clause is
+    #     found := (a & decode(mt[k])) | (~a & EXISTS j. first_imm(j)) | (~a & no_imm & EXISTS l,i. first_sst(l,i))
+    #     result is None ? found | (~a & no_imm & no_sst) : found
+    # The ghost hint recorded at the hit site names the disjunct and the witnesses j / (l, i) (reversed iteration:
+    # position p of the loop is index n-1-p of the list), so that what reaches the solver is a conjunction of
+    # top-level foralls.
+    w = _ctx.cur().ghost_args.get("c14_hit")
+    if w is None:
+        return (result is None) and (Not(a) & no_imm & no_sst)
+    if w[0] == "mt":
+        return a & decode_is(result, mval(mt, k))
+    if w[0] == "imm":
+        _note(num(w[1]), z3.Length(imm) - 1 - num(w[1]))
+        return Not(a) & first_imm(mk_num(z3.Length(imm) - 1 - num(w[1])))
+    l = mk_num(num(w[1]))
+    _note(l.t, num(w[2]), z3.Length(lv[l.t]) - 1 - num(w[2]))
+    return Not(a) & no_imm & first_sst(l, mk_num(z3.Length(lv[l.t]) - 1 - num(w[2])))
 
 
 LSM_FOCUS = lambda s: [s.self._memtable]  # noqa: E731
-fn(LSMTree, "get_sync", args={"key": Str}, uses=SST_API, focus=LSM_FOCUS, ensures=[
+_FEAS0 = _ctx.FEAS_RLIMIT
+
+
+def _cheap_feasibility(s):
+    """branch-feasibility checks with a small budget: an `unknown` answer keeps the path (sound); the instantiated
+    sequence facts of this function make each of the ~80 checks cost seconds at the default budget"""
+    _ctx.FEAS_RLIMIT = 200000
+    _ctx.cur().solver.set("rlimit", 200000)
+    return []
+
+
+def _restore_feasibility(s):
+    _ctx.FEAS_RLIMIT = _FEAS0
+
+
+fn(LSMTree, "get_sync", args={"key": Str}, uses=SST_API, focus=LSM_FOCUS, setup=_cheap_feasibility,
+   teardown=_restore_feasibility, ensures=[
     ("memtable-decides-first", lambda s: implies(has(s.self._memtable._data, s.key),
                                                  decode_is(s.result, mval(s.self._memtable._data, s.key)))),
-    ("returns-the-newest-version-in-the-layered-view", lambda s: True if _os.environ.get("C14_SKIP") else lookup_is(s.self, s.key, s.result)),
+    ("returns-the-newest-version-in-the-layered-view", lambda s: lookup_is(s.self, s.key, s.result)),
     ("data-untouched", lambda s: unchanged(s, s.self, "_levels", "_immutable_memtables", "_memtable", "_logical_data"))])
+
+# ---- flush: data moves from the memtable to the newest L0 run, never disappears, never changes precedence
+_lsm_mod._c14_flush_installed = _c14_flush_installed
+_KEEPS_LEVEL_COUNT = lambda s: slen(s.self._levels) == s.self._max_levels  # noqa: E731
+COMPACT_SYNC = stub_of(LSMTree, "_compact_sync", modifies=["_levels", "_total_compactions", "_sstable_bytes_written"],
+                       ensures=[_KEEPS_LEVEL_COUNT])
+COMPACT_SYNC.returns_none_ok = True
+COMPACT = stub_of(LSMTree, "_compact", modifies=["_levels", "_total_compactions", "_sstable_bytes_written"],
+                  ensures=[_KEEPS_LEVEL_COUNT])
+COMPACT.returns_none_ok = True
+COMPACT.stub_yield = lambda s: s.self._sstable_write_latency
+FLUSH_USES = [(Memtable, "flush"), (Memtable, "__init__"), (CompactionStrategy, "should_compact"),
+              (WriteAheadLog, "truncate")]
+
+_NO_FLUSH_NO_CHANGE = ("flush-counted-or-memtable-left-alone", lambda s:
+                       (s.self._total_memtable_flushes == s.old(s.self)._total_memtable_flushes + 1)
+                       | ((s.self._total_memtable_flushes == s.old(s.self)._total_memtable_flushes)
+                          & mk_bool(s.self._memtable._data.term == s.old(s.self._memtable)._data.term)))
+fn(LSMTree, "_flush_memtable_sync", focus=LSM_FOCUS, uses=FLUSH_USES + [(LSMTree, "_compact_sync")], ensures=[
+    _NO_FLUSH_NO_CHANGE,
+    ("memtable-emptied", lambda s: slen(s.self._memtable._data) == 0),
+    ("model-and-immutable-memtables-untouched", lambda s: unchanged(s, s.self, "_logical_data", "_immutable_memtables",
+                                                                    "_memtable")),
+    ("empty-memtable-flushes-nothing", lambda s: implies(slen(s.old(s.self._memtable)._data) == 0,
+                                                         unchanged(s, s.self, "_levels", "_total_memtable_flushes")))])
+
+
+FLUSH_SYNC_AS_STUB = stub_of(LSMTree, "_flush_memtable_sync", modifies=[
+    "_levels", "_sstable_bytes_written", "_total_memtable_flushes", "_total_compactions",
+    (lambda s: s.self._memtable, "_data"), (lambda s: s.self._memtable, "_sequence"),
+    (lambda s: s.self._memtable, "_total_flushes")],
+    ensures=[_KEEPS_LEVEL_COUNT, lambda s: _NO_FLUSH_NO_CHANGE[1](s)])
+FLUSH_SYNC_AS_STUB.returns_none_ok = True
+# (re-register the verified contract under its own key: stub_of above replaced the table entry used by `uses`)
+fn(LSMTree, "put_sync", args={"key": Str, "value": VAL}, focus=LSM_FOCUS,
+   requires=[("user-values-are-not-the-private-tombstone", lambda s: mk_bool(s.value.t != TOMB))],
+   uses=[(WriteAheadLog, "append_sync"), (LSMTree, "_flush_memtable_sync")], ensures=[
+    ("model-updated", lambda s: is_update(s.self._logical_data, s.old(s.self)._logical_data, s.key, s.value)),
+    ("written-to-the-active-memtable-before-any-flush", lambda s: implies(
+        s.self._total_memtable_flushes == s.old(s.self)._total_memtable_flushes,
+        is_update(s.self._memtable._data, s.old(s.self._memtable)._data, s.key, s.value))),
+    ("older-components-untouched", lambda s: unchanged(s, s.self, "_immutable_memtables", "_memtable"))])
+
+
+def _flushing_memtable_still_readable(s, y):
+    """(at every yield of a flush) the entries of the memtable being flushed are served either by that memtable,
+    kept unchanged as the newest immutable memtable, or by the newest run of level 0"""
+    m0 = s.old(s.self)._memtable
+    entry_data = s.old(m0)._data
+    imm = seq_term(s.self._immutable_memtables)
+    l0 = seq_term(s.self._levels)[0]
+    in_imm = mk_bool(z3.And(z3.Length(imm) > 0, imm[z3.Length(imm) - 1] == m0._ref)) & same_map(
+        ObjProxy(m0._ref, Memtable)._data, entry_data)
+    in_l0 = mk_bool(z3.Length(l0) > 0) & same_map(
+        WMAP.wrap(sst_view(l0[z3.Length(l0) - 1])), entry_data)
+    return mk_bool(to_z3_bool(in_imm)) | mk_bool(to_z3_bool(in_l0))
+
+
+def _stash_segment(s, before, y):
+    _ctx.cur().ghost_args["c14_seg"] = _ctx.cur().heap.snapshot()
+    return True
+
+
+fn(LSMTree, "_flush_memtable", focus=LSM_FOCUS, uses=FLUSH_USES + [(LSMTree, "_compact")],
+   yields=Yields(
+       at_yield=[("flushing-memtable-still-readable", _flushing_memtable_still_readable)],
+       # rely: an immutable memtable is written by nobody and leaves the list only through the flush that put it there
+       keep=lambda s, y: [s.old(s.self)._memtable],
+       rely=[_stash_segment,
+             lambda s, b, y: implies(
+                 mk_bool(z3.Contains(seq_term(old_view_of(b, s.self)._immutable_memtables),
+                                     z3.Unit(s.old(s.self)._memtable._ref))),
+                 mk_bool(z3.Contains(seq_term(s.self._immutable_memtables), z3.Unit(s.old(s.self)._memtable._ref))))],
+       stable=[("Memtable", "_size_threshold")]),
+   ensures=[])
+
+
+def old_view_of(before_ns, obj):
+    from pyvc.heap import old_view
+    return old_view(obj, before_ns._seg)
+
+
+# ============================================================================ F. bounded native stand-ins
+# (labelled bounded, never counted as proved)  The compaction merge (`_compact*`: nested dict comprehensions,
+# sorted(dict.items()), any(genexpr)), `LSMTree.get/scan` (yields inside `for sstable in reversed(level)` while
+# other processes mutate that list) and the B-tree (recursive node structure) are outside the engine's reach;
+# they are exercised natively, through the public API, against a dict model.
+def _drain(gen):
+    """run a generator API call to completion without letting anything else run (one atomic step)"""
+    try:
+        while True:
+            next(gen)
+    except StopIteration as e:
+        return e.value
+
+
+def _bounded_lsm_sync(seed, tier):
+    """random put/delete/get/scan sequences on the sync API (scan: drained generator), every compaction strategy,
+    memtable sizes 1..3, 2..4 levels, 4 keys: every read equals the dict model, scans are the sorted live range"""
+    import random
+    n_seq = 400 if tier == "thorough" else 150
+    viol, evals = [], 0
+    for t in range(n_seq):
+        rng = random.Random(seed * 100003 + t)
+        strat = [SizeTieredCompaction(min_sstables=rng.choice([2, 3])),
+                 LeveledCompaction(level_0_max=rng.choice([1, 2]), size_ratio=2, base_size_keys=rng.choice([1, 2])),
+                 FIFOCompaction(max_total_sstables=rng.choice([1, 2, 3]))][t % 3]
+        tree = LSMTree("t", memtable_size=rng.choice([1, 2, 3]), compaction_strategy=strat, max_levels=rng.choice([2, 3, 4]))
+        model, trace = {}, []
+        keys = ["a", "b", "c", "d"]
+        for i in range(rng.randint(5, 40)):
+            op = rng.choices(["put", "del", "get", "scan"], [5, 2, 4, 1])[0]
+            k = rng.choice(keys)
+            evals += 1
+            if op == "put":
+                v = f"v{i}"
+                tree.put_sync(k, v)
+                model[k] = v
+            elif op == "del":
+                _drain(tree.delete(k))
+                model.pop(k, None)
+            elif op == "get":
+                r = tree.get_sync(k)
+                if r != model.get(k):
+                    viol.append({"case": "sync-read", "strategy": type(strat).__name__, "trace": trace + [(op, k)],
+                                 "got": r, "want": model.get(k)})
+                    break
+            else:
+                lo, hi = sorted([rng.choice(keys), rng.choice(keys + ["e"])])
+                r = _drain(tree.scan(lo, hi))
+                want = sorted((kk, vv) for kk, vv in model.items() if lo <= kk < hi)
+                if r != want:
+                    viol.append({"case": "sync-scan", "strategy": type(strat).__name__, "trace": trace + [(op, lo, hi)],
+                                 "got": r, "want": want})
+                    break
+            trace.append((op, k))
+        if len(viol) >= 3:
+            break
+    return {"evaluations": evals, "violations": viol[:3]}
+
+
+def _interval_oracle(ops):
+    """ops: (kind, key, value, t_start, t_end, result).  A read must return the value of the latest write to its key
+    that completed before the read began (or of one overlapping that write), or of a write concurrent with the read."""
+    writes = [o for o in ops if o[0] != "get"]
+    for kind, k, v, t0, t1, r in ops:
+        if kind != "get":
+            continue
+        ws = [w for w in writes if w[1] == k]
+        before = [w for w in ws if w[4] <= t0]
+        conc = [w for w in ws if not (w[4] <= t0) and w[3] <= t1]
+        allowed = set()
+        if before:
+            last_t = max(w[4] for w in before)
+            for w in before:
+                if w[4] == last_t or any(w[4] > x[3] and w is not x for x in before if x[4] == last_t):
+                    allowed.add(None if w[0] == "del" else w[2])
+        else:
+            allowed.add(None)
+        for w in conc:
+            allowed.add(None if w[0] == "del" else w[2])
+        if r not in allowed:
+            return {"key": k, "got": r, "allowed": sorted(map(str, allowed)), "read_interval_ns": [t0, t1]}
+    return None
+
+
+def _concurrent_trial(make_store, rng, n_keys=3):
+    from happysimulator import Simulation, Event, Instant, Entity
+    store = make_store(rng)
+    ops = []
+
+    class Proc(Entity):
+        def __init__(self, n, script):
+            super().__init__(n)
+            self.script = script
+
+        def handle_event(self, e):
+            for kind, k, v, gap in self.script:
+                yield gap
+                t0 = self.now.nanoseconds
+                if kind == "put":
+                    yield from store.put(k, v)
+                    r = None
+                elif kind == "del":
+                    yield from store.delete(k)
+                    r = None
+                else:
+                    r = yield from store.get(k)
+                ops.append((kind, k, v, t0, self.now.nanoseconds, r))
+
+    procs = []
+    for p in range(rng.choice([2, 3])):
+        script = []
+        for i in range(rng.randint(3, 10)):
+            kind = rng.choices(["put", "del", "get"], [5, 1, 4])[0]
+            script.append((kind, f"k{rng.randrange(n_keys)}", f"p{p}v{i}", rng.choice([0.0, 0.001, 0.01, 0.05, 0.3])))
+        procs.append(Proc(f"p{p}", script))
+    sim = Simulation(entities=procs + [store], end_time=Instant.from_seconds(100))
+    for p in procs:
+        sim.schedule(Event(time=Instant.from_seconds(rng.choice([0, 0.001, 0.02])), event_type="go", target=p))
+    sim.run()
+    return _interval_oracle(ops)
+
+
+def _bounded_lsm_concurrent(seed, tier):
+    """2-3 processes with random start offsets issue put/delete/get through the generator API of one LSM tree inside
+    a real Simulation (memtable sizes 1..3, 3 levels, size-tiered and leveled compaction, 3 keys)"""
+    import random
+
+    def mk(rng):
+        strat = rng.choice([SizeTieredCompaction(min_sstables=2), LeveledCompaction(level_0_max=2, size_ratio=2, base_size_keys=2)])
+        return LSMTree("t", memtable_size=rng.choice([1, 2, 3]), compaction_strategy=strat, max_levels=3,
+                       sstable_read_latency=rng.choice([0.001, 0.01]), sstable_write_latency=rng.choice([0.01, 0.05, 0.2]))
+    n = 1200 if tier == "thorough" else 400
+    viol = []
+    for t in range(n):
+        bad = _concurrent_trial(mk, random.Random(seed * 7919 + t))
+        if bad:
+            viol.append({"case": "stale-read", "trial": t, **bad})
+            if len(viol) >= 3:
+                break
+    return {"evaluations": n, "violations": viol}
+
+
+def _bounded_btree(seed, tier):
+    """B-tree (order 3..5, so that splits are frequent): random sync sequences against a dict (get/put/delete/scan),
+    and 2-3 concurrent processes on the generator API inside a real Simulation (interval oracle)"""
+    import random
+    from happysimulator.components.storage.btree import BTree
+    viol, evals = [], 0
+    for t in range(300 if tier == "thorough" else 120):
+        rng = random.Random(seed * 104729 + t)
+        bt = BTree("bt", order=rng.choice([3, 4, 5]))
+        model = {}
+        keys = [f"k{i:02d}" for i in range(12)]
+        for i in range(rng.randint(5, 60)):
+            op = rng.choices(["put", "del", "get", "scan"], [6, 2, 4, 1])[0]
+            k = rng.choice(keys)
+            evals += 1
+            if op == "put":
+                bt.put_sync(k, i)
+                model[k] = i
+            elif op == "del":
+                r = _drain(bt.delete(k))
+                if r != (k in model):
+                    viol.append({"case": "btree-sync-delete", "key": k, "got": r})
+                model.pop(k, None)
+            elif op == "get":
+                if bt.get_sync(k) != model.get(k):
+                    viol.append({"case": "btree-sync-read", "key": k, "got": bt.get_sync(k), "want": model.get(k)})
+            else:
+                lo, hi = sorted([rng.choice(keys), rng.choice(keys)])
+                r = _drain(bt.scan(lo, hi))
+                if r != sorted((kk, vv) for kk, vv in model.items() if lo <= kk < hi):
+                    viol.append({"case": "btree-sync-scan", "range": [lo, hi], "got": r})
+            if viol:
+                break
+        if bt.size != len(model) and not viol:
+            viol.append({"case": "btree-size", "got": bt.size, "want": len(model)})
+        if viol:
+            break
+    n = 600 if tier == "thorough" else 250
+    for t in range(n):
+        rng = random.Random(seed * 15485863 + t)
+        bad = _concurrent_trial(lambda r: BTree("bt", order=3, page_read_latency=r.choice([0.001, 0.01]),
+                                                 page_write_latency=r.choice([0.001, 0.02])), rng, n_keys=6)
+        if bad:
+            viol.append({"case": "btree-stale-read", "trial": t, **bad})
+            break
+    return {"evaluations": evals + n, "violations": viol[:3]}
+
+
+def _isolated(fname):
+    """run a stand-in in a fresh interpreter: the checker's worker processes patch `__new__` of the registered heap
+    classes while a task runs, and CPython does not fully restore a class whose `__new__` was set and deleted"""
+    def run(seed, tier):
+        import json
+        import subprocess
+        import sys
+        code = ("import sys, json; sys.path.insert(0, '/verif'); from pyvc import loader; loader.install(); "
+                f"import specs.C14 as m; print('C14-RESULT ' + json.dumps(m.{fname}({seed!r}, {tier!r}), default=str))")
+        p = subprocess.run([sys.executable, "-c", code], cwd="/verif", capture_output=True, text=True, timeout=900)
+        for ln in p.stdout.splitlines():
+            if ln.startswith("C14-RESULT "):
+                return json.loads(ln[len("C14-RESULT "):])
+        raise RuntimeError(f"stand-in {fname} failed: {p.stderr[-600:]}")
+    return run
+
+
+PROPERTY["bounded"] = [
+    {"name": "lsm-sync-api-vs-dict", "bound": "150 (thorough: 400) random sequences of <= 40 put/delete/get/scan over 4 keys; "
+     "memtable size 1..3, 2..4 levels, all three compaction strategies", "fn": _isolated("_bounded_lsm_sync")},
+    {"name": "lsm-generator-api-interleavings", "bound": "400 (thorough: 1200) random workloads of 2-3 concurrent processes, "
+     "<= 10 operations each over 3 keys, random start offsets and gaps, inside a real Simulation",
+     "fn": _isolated("_bounded_lsm_concurrent")},
+    {"name": "btree-vs-dict-and-concurrent-get", "bound": "120 (thorough: 300) random sync sequences of <= 60 operations over 12 "
+     "keys (order 3..5) and 250 (thorough: 600) concurrent workloads on the generator API (order 3, 6 keys)",
+     "fn": _isolated("_bounded_btree")},
+]
